@@ -50,18 +50,21 @@ def min_image_distances(lattice, positions):
 
 
 def projector_onto_admissible(N, order, ops, near=None, drop_pattern_22=False):
-    """Orthogonal projector (dense) onto the admissible space, built as a product-free null-space:
-    returns an orthonormal basis Q (dim x r) of the admissible space."""
+    """Orthonormal basis Q (dim x r) of the admissible space, as the null space of G = sum_i A_i^T A_i over all constraints.
+    For an orthogonal representation rho (index transpositions, space-group operations) A = rho^T - I gives
+    A^T A = 2 I - rho - rho^T, so no matrix product is needed for those."""
     dim = N ** order * 3 ** order
     shape = (N,) * order + (3,) * order
     eye = np.eye(dim).reshape((dim,) + shape)
-    rows = []
+    G = np.zeros((dim, dim))
+    I2 = 2.0 * np.eye(dim)
     # permutation symmetry: adjacent transpositions generate S_n
     for k in range(order - 1):
         pi = list(range(order))
         pi[k], pi[k + 1] = pi[k + 1], pi[k]
         ax = (0,) + tuple(1 + a for a in axes_perm(order, pi))
-        rows.append((eye - np.transpose(eye, ax)).reshape(dim, dim))
+        M = np.transpose(eye, ax).reshape(dim, dim)
+        G += I2 - M - M.T
     # space group: every operation
     for perm, R in ops:
         rot = eye
@@ -70,9 +73,11 @@ def projector_onto_admissible(N, order, ops, near=None, drop_pattern_22=False):
         out = np.zeros_like(eye)
         idx = (slice(None),) + np.ix_(*([perm] * order))
         out[idx] = rot
-        rows.append((out - eye).reshape(dim, dim))
+        M = out.reshape(dim, dim)
+        G += I2 - M - M.T
     # sum rule over the first index (others follow from permutation symmetry)
-    rows.append(eye.sum(axis=1).reshape(dim, -1).T @ np.eye(dim) if False else eye.sum(axis=1).reshape(dim, -1).T)
+    S = eye.sum(axis=1).reshape(dim, -1)          # dim x (dim / N): column = one sum-rule row
+    G += S @ S.T
     # cutoff: elements whose atoms are not mutually near vanish
     zero = np.zeros(shape, dtype=bool)
     if near is not None or drop_pattern_22:
@@ -87,14 +92,9 @@ def projector_onto_admissible(N, order, ops, near=None, drop_pattern_22=False):
                     if len(vals) == 2 and sorted(idx4.count(v) for v in vals) == [2, 2]:
                         zero[at + ca] = True
         zr = np.nonzero(zero.reshape(-1))[0]
-        Z = np.zeros((len(zr), dim))
-        Z[np.arange(len(zr)), zr] = 1.0
-        rows.append(Z)
-    # null space by eigen-decomposition of sum_i A_i^T A_i (dim x dim), accumulated block by block
-    G = np.zeros((dim, dim))
-    for r in rows:
-        r = r if r.shape[1] == dim else r.T
-        G += r.T @ r
+        G[zr, zr] += 1.0
     w, V = np.linalg.eigh(G)
     tol = 1e-9 * max(1.0, w.max())
     return V[:, w < tol]
+
+
